@@ -6,6 +6,7 @@ import (
 	"encoding/json"
 	"flag"
 	"fmt"
+	"golang.org/x/tools/go/ssa"
 	"os"
 	"path/filepath"
 	"runtime"
@@ -22,6 +23,10 @@ type Ledger struct {
 	Undecided  []string `json:"undecided"`
 	Functions  []string `json:"functions"`
 	Anchors    []string `json:"anchors"`
+	AllFuncs   []string `json:"all_functions,omitempty"` // every function of the package on the pinned tree
+	// per function, the header texts of its loops that carry no contract (explicit or inferred) on the
+	// pinned tree; a loop without contract that is not listed here was introduced by the change
+	BareLoops map[string][]string `json:"bare_loops,omitempty"`
 }
 
 type KnownFinding struct {
@@ -258,12 +263,95 @@ func cmdCheck(args []string) {
 		reason string
 	}
 	var viols []violation
+	knownFn := map[string]bool{}
+	for _, n := range led.AllFuncs {
+		knownFn[n] = true
+	}
+	// Obligations with the same function, kind and text are told apart by an ordinal (#2, #3, ...) in
+	// generation order. Reordering statements permutes the ordinals: a site that was undecided on the pinned
+	// tree can take over the name of a discharged one. Per base name, what counts is how many are discharged
+	// and how many fail: at least as many discharged as in the ledger and no more failing ones than the ledger
+	// lists undecided means nothing was lost and nothing failing was added.
+	baseOf := func(n string) string {
+		if i := strings.LastIndex(n, "#"); i > 0 {
+			if _, err := strconv.Atoi(n[i+1:]); err == nil {
+				return n[:i]
+			}
+		}
+		return n
+	}
+	ledDisc := map[string]int{}
+	for _, n := range led.Discharged {
+		ledDisc[baseOf(n)]++
+	}
+	ledUnd := map[string]int{}
+	for _, n := range led.Undecided {
+		ledUnd[baseOf(n)]++
+	}
+	renumbered := map[string]bool{}
+	{
+		need := map[string]bool{}
+		for _, ob := range suspects {
+			if ob.Result != "unsat" {
+				need[baseOf(ob.Name)] = true
+			}
+		}
+		if len(need) > 0 {
+			var todo []*Obligation
+			for _, ob := range obls {
+				if need[baseOf(ob.Name)] && ob.Result == "not-attempted" {
+					todo = append(todo, ob)
+				}
+			}
+			parallelDo(len(todo), func(i int) { vcOf[todo[i]].retry(todo[i], tmo) })
+			now := map[string]int{}
+			nowFail := map[string]int{}
+			for _, ob := range obls {
+				if !need[baseOf(ob.Name)] {
+					continue
+				}
+				if ob.Result == "unsat" {
+					now[baseOf(ob.Name)]++
+				} else {
+					nowFail[baseOf(ob.Name)]++
+				}
+			}
+			for b := range need {
+				// as many discharged as on the pinned tree, and not more failing ones than were undecided
+				// there: an added site (e.g. a new return point) that fails is not a renumbering
+				if now[b] >= ledDisc[b] && nowFail[b] <= ledUnd[b] {
+					renumbered[b] = true
+				}
+			}
+		}
+	}
+	var behindNewFn []string
 	for _, ob := range suspects {
 		if ob.Result == "unsat" {
 			discharged++
 			continue
 		}
+		if renumbered[baseOf(ob.Name)] {
+			discharged++ // the same number of obligations of this name is discharged as on the pinned tree
+			continue
+		}
+		// modular verification cannot see through a function that did not exist when the ledger was
+		// written and therefore has no contract (typically a helper extracted by a refactoring): what was
+		// proved through the old code is undecided, not violated. Reported, never silent.
+		if len(knownFn) > 0 {
+			if nf := vcOf[ob].newCallee(knownFn); nf != "" {
+				behindNewFn = append(behindNewFn, ob.Name+" (calls new function "+nf+", which has no contract)")
+				continue
+			}
+		}
+		if nl := vcOf[ob].newBareLoop(&led); nl != "" && !decisiveKind(ob.Kind) {
+			behindNewFn = append(behindNewFn, ob.Name+" (the function has a new loop \""+nl+"\", which has no invariant)")
+			continue
+		}
 		viols = append(viols, violation{ob, "obligation discharged on the pinned tree now fails"})
+	}
+	for _, n := range behindNewFn {
+		fmt.Printf("UNDECIDED property=%s obligation=%q\n", *prop, n)
 	}
 	// 3. new failing obligations: a violation only when they replace a vanished discharged obligation
 	//    of the same function and kind (the code of a proved site was changed and is not provable any more)
@@ -287,6 +375,18 @@ func cmdCheck(args []string) {
 			continue
 		}
 		fk := fnKind(ob.Name)
+		if len(knownFn) > 0 && !decisiveKind(ob.Kind) {
+			if nf := vcOf[ob].newCallee(knownFn); nf != "" {
+				fmt.Printf("UNDECIDED property=%s obligation=%q\n", *prop, ob.Name+" (calls new function "+nf+", which has no contract)")
+				undecidedNew = append(undecidedNew, ob)
+				continue
+			}
+		}
+		if nl := vcOf[ob].newBareLoop(&led); nl != "" && !decisiveKind(ob.Kind) {
+			fmt.Printf("UNDECIDED property=%s obligation=%q\n", *prop, ob.Name+" (the function has a new loop \""+nl+"\", which has no invariant)")
+			undecidedNew = append(undecidedNew, ob)
+			continue
+		}
 		if len(vanByFK[fk]) > 0 {
 			old := vanByFK[fk][0]
 			vanByFK[fk] = vanByFK[fk][1:]
@@ -524,6 +624,16 @@ func writeLedger(e *Engine, path, prop string, obls []*Obligation, vcs []*VC) {
 			}
 		}
 	}
+	for name := range e.funcs {
+		led.AllFuncs = append(led.AllFuncs, name)
+	}
+	led.BareLoops = map[string][]string{}
+	for _, vc := range vcs {
+		if len(vc.bareLoops) > 0 {
+			led.BareLoops[e.fname(vc.fn)] = append([]string{}, vc.bareLoops...)
+		}
+	}
+	sort.Strings(led.AllFuncs)
 	sort.Strings(led.Discharged)
 	sort.Strings(led.Undecided)
 	sort.Strings(led.Functions)
@@ -556,4 +666,51 @@ func decisiveKind(k string) bool {
 		return true
 	}
 	return false
+}
+
+// newCallee: the name of an in-package function called (statically) by the VC's function that is not in
+// the set of functions known to the ledger ("" if none).
+// newBareLoop: the text of a loop of the function that has no contract and did not exist (as a loop without
+// contract) on the pinned tree. What has to be proved across such a loop needs an invariant nobody has
+// written yet: undecided, not violated.
+func (vc *VC) newBareLoop(led *Ledger) string {
+	if led.BareLoops == nil {
+		return ""
+	}
+	cnt := map[string]int{}
+	for _, t := range led.BareLoops[vc.e.fname(vc.fn)] {
+		cnt[t]++
+	}
+	for _, t := range vc.bareLoops {
+		if cnt[t] == 0 {
+			return t
+		}
+		cnt[t]--
+	}
+	return ""
+}
+
+func (vc *VC) newCallee(known map[string]bool) string {
+	for _, b := range vc.fn.Blocks {
+		for _, ins := range b.Instrs {
+			c, ok := ins.(ssa.CallInstruction)
+			if !ok {
+				continue
+			}
+			var g *ssa.Function
+			switch v := c.Common().Value.(type) {
+			case *ssa.Function:
+				g = v
+			case *ssa.MakeClosure:
+				g, _ = v.Fn.(*ssa.Function)
+			}
+			if g == nil || g.Pkg != vc.e.pkg {
+				continue
+			}
+			if n := vc.e.fname(g); !known[n] {
+				return n
+			}
+		}
+	}
+	return ""
 }
